@@ -224,3 +224,21 @@ fn k_subject2_replay__subscriber_that_ends_during_the_replay_is_not_held() {
   assert!(crate::subjects::subject::verif_k::held(crate::subjects::replay_subject::verif_k::inner(&sbj)) == 0, "subject.drops: the inner Subject of a terminated ReplaySubject holds the observer of a late subscriber");
   kani::cover!(true, "harness reaches its end");
 }
+
+// PROBE (open known finding): AsyncSubject = Subject.take_last(1) keeps the last item per SUBSCRIBER (inside each take_last), not in the
+// subject: an observer that joins after the last next() but before complete() is handed only the completion
+#[kani::proof]
+#[kani::unwind(3)]
+fn k_subject2_probe__async_joiner_before_completion_gets_the_last_item() {
+  let x: u8 = kani::any();
+  let sbj = subjects::AsyncSubject::<u8>::new();
+  let l1 = Log::new();
+  let _s1 = attach_o(&sbj.observable(), l1);
+  sbj.next(x);
+  let l2 = Log::new();
+  let _s2 = attach_o(&sbj.observable(), l2);
+  sbj.complete();
+  assert!(l1.is(&[EV_N | x as u32, EV_C]), "subject.async: the first observer did not get the last item on completion");
+  assert!(l2.is(&[EV_N | x as u32, EV_C]), "subject.async.late: an observer that joined before complete() was not handed the last item on completion");
+  kani::cover!(true, "harness reaches its end");
+}
